@@ -236,13 +236,18 @@ class Compiler:
         self.bytecode[pos + 1] = target & 0xFF  # Low byte
         self.bytecode[pos + 2] = (target >> 8) & 0xFF  # High byte
 
-    def _emit_unwind(self, target: Optional[LoopContext], leave_target: bool) -> None:
+    def _emit_unwind(
+        self, target: Optional[LoopContext], leave_target: bool, pending_slots: int = 0
+    ) -> None:
         """Emit what a jump must do for every construct it leaves, innermost first:
         pop the exception handler of a try block, run its finally block, and pop the
         operand slots (iterator, discriminant, pending exception) the construct holds.
 
         target is the loop context jumped to (None for return: leave everything);
-        leave_target says whether the target construct itself is exited (break).
+        leave_target says whether the target construct itself is exited (break);
+        pending_slots is what the jump itself keeps on the operand stack meanwhile (the
+        value of a return statement): a break/continue inside a finally block that runs
+        on the way out abandons the return and has to pop it.
         """
         scopes = self.loop_stack
         for i in range(len(scopes) - 1, -1, -1):
@@ -262,6 +267,10 @@ class Compiler:
                 if scope.finalizer and not scope.in_finalizer:
                     # The finally block runs outside its own try statement
                     self.loop_stack = scopes[:i]
+                    if pending_slots:
+                        self.loop_stack.append(
+                            TryContext(handler_active=False, stack_slots=pending_slots)
+                        )
                     self._compile_statement(scope.finalizer)
                     self.loop_stack = scopes
             elif target is not None:
@@ -738,7 +747,9 @@ class Compiler:
             # The argument is evaluated first, then the pending finally blocks run
             if node.argument:
                 self._compile_expression(node.argument)
-            self._emit_unwind(None, leave_target=True)
+            self._emit_unwind(
+                None, leave_target=True, pending_slots=1 if node.argument else 0
+            )
             if node.argument:
                 self._emit(OpCode.RETURN)
             else:
